@@ -236,10 +236,11 @@ class ARandom(Adapter):
 class AUncertainty(Adapter):
     needs_clf = True
 
-    def __init__(self, method, cost=False):
+    def __init__(self, method, cost=False, freq=False):
         self.method = method
         self.cost = cost
-        self.name = f"UncertaintySampling[{method}{',cost' if cost else ''}]"
+        self.freq = freq       # classifier = class-frequency estimator: the real ClassFrequencyEstimator.predict_proba runs
+        self.name = f"UncertaintySampling[{method}{',cost' if cost else ''}{',freq' if freq else ''}]"
         self.slow = method == "expected_average_precision"
         self.product_abstraction = method in ("entropy", "expected_average_precision")
         self.units = ["skactiveml.pool._uncertainty_sampling:UncertaintySampling.query",
@@ -248,8 +249,16 @@ class AUncertainty(Adapter):
             self.units.append("skactiveml.pool._uncertainty_sampling:expected_average_precision")
 
     def make(self, seed, sym=True, inputs=None, **kw):
+        self._inputs = inputs
         cm = [[0.0, 1.0], [2.0, 0.0]] if self.cost else None
         return pool().UncertaintySampling(method=self.method, cost_matrix=cm, random_state=seed, **kw)
+
+    def clf(self, sym, table=None, K=2):
+        if not self.freq:
+            return Adapter.clf(self, sym, table, K)
+        if sym:
+            return models.StubFreqClassifier(classes=list(range(K)), n_classes=K)
+        return models.real_table_freq_classifier([(row, fr) for _, row, fr in (self._inputs or {}).get("__freq__", [])], n_classes=K)
 
     def call(self, qs, s, b, sym, table=None, return_utilities=True):
         return qs.query(s.X, s.y, self.clf(sym, table, s.K), candidates=s.cand, batch_size=b,
@@ -269,6 +278,7 @@ for _m in ("least_confident", "margin_sampling", "entropy", "expected_average_pr
     register(AUncertainty(_m))
 register(AUncertainty("least_confident", cost=True))
 register(AUncertainty("margin_sampling", cost=True))
+register(AUncertainty("least_confident", freq=True))
 
 BASE_UNITS = ["skactiveml.base:PoolQueryStrategy._validate_data",
               "skactiveml.base:SingleAnnotatorPoolQueryStrategy._validate_data",
